@@ -84,6 +84,9 @@ pub enum Step {
     SyncAll,
     SyncData,
     Len,
+    /// namespace operation while the handle stays open (directed scenarios
+    /// only: handle-follows-inode)
+    Rename { a: String, b: String },
 }
 
 #[derive(Clone, Debug, PartialEq)]
@@ -141,6 +144,7 @@ fn step_json(s: &Step) -> Value {
         Step::SyncAll => json!({"s":"sync_all"}),
         Step::SyncData => json!({"s":"sync_data"}),
         Step::Len => json!({"s":"len"}),
+        Step::Rename { a, b } => json!({"s":"rename","a":a,"b":b}),
     }
 }
 
@@ -169,6 +173,10 @@ fn step_parse(v: &Value) -> Option<Step> {
         "sync_all" => Step::SyncAll,
         "sync_data" => Step::SyncData,
         "len" => Step::Len,
+        "rename" => Step::Rename {
+            a: v["a"].as_str().unwrap_or("/").to_string(),
+            b: v["b"].as_str().unwrap_or("/").to_string(),
+        },
         _ => return None,
     })
 }
@@ -493,6 +501,7 @@ pub fn canonical(h: &[Op]) -> String {
                         Step::SyncAll => "fsync".into(),
                         Step::SyncData => "fdsync".into(),
                         Step::Len => "len?".into(),
+                        Step::Rename { .. } => "rename-while-open".into(),
                     })
                     .collect();
                 format!(
